@@ -163,7 +163,8 @@ fn main() {
             // the whole check until the driver's watchdog fires: the worker gives up on it.
             let heartbeat = std::sync::Arc::new(std::sync::atomic::AtomicU64::new(0));
             let cur_case = std::sync::Arc::new(std::sync::atomic::AtomicU64::new(u64::MAX));
-            {
+            // (not under Miri, which insists that every thread is joined before the main thread ends)
+            if ctx.mode != Mode::Miri {
                 let (hb, cc) = (heartbeat.clone(), cur_case.clone());
                 let limit_s: u64 = a.get("case-timeout").and_then(|s| s.parse().ok()).unwrap_or(match ctx.mode { Mode::Miri => 1500, Mode::Native => 150, _ => 400 });
                 let t0 = std::time::Instant::now();
